@@ -308,6 +308,35 @@ theorem key_call_spec (env : Env κ ν δ) (hidx : env.Indexed) (skipEmpty : Boo
   have := functionKey_eq env skipEmpty tables hc doc name arg
   exact ⟨this.1, by rw [this.2, callAnswer_spec env hidx skipEmpty doc name arg]⟩
 
+/-- **The key name is fixed before the table is built**: when the string-name overload resolves a prefixed key name
+into a QName of its own (`byValue`), the answer is the specification for the expanded name *given* — whatever the
+`match`/`use` expressions compute or resolve while the table is built (`buildOverwrites`, `scratchAfter` arbitrary). -/
+theorem key_name_independent_of_use_evaluation (env : Env κ ν δ) (hidx : env.Indexed) (tables : KeyTables κ ν δ)
+    (hc : CacheOK env tables) (buildOverwrites : Bool) (scratchAfter : κ) (doc : δ) (qname : κ) (ref : String) :
+    (prefixedKeyCall true buildOverwrites scratchAfter env tables doc qname ref).2 =
+      callSpec env.keyDeclarations (env.doc doc) qname [ref] := by
+  have := (key_call_spec env hidx false tables hc doc qname (.str ref)).2
+  simpa [prefixedKeyCall, nameSeen, functionKey, effValues] using this
+
+/-- What holds for the tree as it is (the regenerated flag `stringNameByValue`): the same, provided no `match`/`use`
+evaluated during a table build resolves another QName while the name is still held by reference.  Missing w.r.t. the
+full statement: exactly that case — see `key_name_overwritten_counterexample` (nothing is missing once the flag is
+`true`). -/
+theorem key_name_independent_of_use_evaluation_partial (env : Env κ ν δ) (hidx : env.Indexed)
+    (tables : KeyTables κ ν δ) (hc : CacheOK env tables) (buildOverwrites : Bool) (scratchAfter : κ) (doc : δ)
+    (qname : κ) (ref : String)
+    (h : XalanModel.Generated.C15_ExecContext.stringNameByValue = false → buildOverwrites = false) :
+    (prefixedKeyCall XalanModel.Generated.C15_ExecContext.stringNameByValue buildOverwrites scratchAfter env tables
+        doc qname ref).2 = callSpec env.keyDeclarations (env.doc doc) qname [ref] := by
+  have hname : nameSeen XalanModel.Generated.C15_ExecContext.stringNameByValue buildOverwrites scratchAfter env tables
+      doc qname = qname := by
+    unfold nameSeen
+    cases hb : XalanModel.Generated.C15_ExecContext.stringNameByValue with
+    | true => simp
+    | false => simp [h hb]
+  have := (key_call_spec env hidx false tables hc doc qname (.str ref)).2
+  simpa [prefixedKeyCall, hname, functionKey, effValues] using this
+
 /-- **Node-set second argument = union over the nodes' string values** (XSLT 1.0 §12.2), in document order, for the
 code *without* the `if (0 != ref.length())` guard.  With the guard (the unchanged tree) see
 `key_nodeset_union_counterexample` / `key_nodeset_union_partial`. -/
@@ -402,6 +431,15 @@ theorem key_context_document_counterexample :
     runXCalls cxTwoDocs ⟨true, false⟩ false [] [⟨1, 0, true, "k", .str "x"⟩, ⟨1, 0, false, "k", .str "x"⟩, ⟨1, 1, true, "k", .str "x"⟩] =
       [some [1], some [1, 2], some [1, 2]] ∧
     runXCalls cxTwoDocs ⟨true, true⟩ false [] [⟨1, 0, true, "k", .str "x"⟩] = [some [1, 2]] := by decide
+/-- **With the name held by reference the first prefixed lookup on a document is lost** when a `use` expression
+resolves another QName during the table build: `cxEnv` declares key "k"; the build leaves "df" in the scratch; the
+call answers the UnknownKey error (`none`) although "k" is declared and `key('k', "")` is `[1]`; the next call finds
+the table cached and is right; with the name by value both are right.  Replayed on the real library by
+`gen/corpus/c15/prefixed-name-overwritten.json`. -/
+theorem key_name_overwritten_counterexample :
+    (prefixedKeyCall false true "df" cxEnv [] 0 "k" "").2 = none ∧
+    (prefixedKeyCall false true "df" cxEnv (prefixedKeyCall false true "df" cxEnv [] 0 "k" "").1 0 "k" "").2 = some [1] ∧
+    (prefixedKeyCall true true "df" cxEnv [] 0 "k" "").2 = some [1] := by decide
 end Counterexample
 
 example : cxEnv.Indexed := by
